@@ -1,3 +1,155 @@
-From MJ Require Import Common.Base Lang.Syntax Lang.Meta Lang.Interp C04.Model C04.Proofs.
-Theorem stub : as_const (EConst LNone) = Some VNone. Proof. exact stub_proof. Qed.
-Print Assumptions stub.
+(* C04 -- Compile-time evaluation is transparent: literals behave like variables.
+   Only statements here; proofs live in MJ.C04.Proofs.
+
+   Vocabulary: [as_const] is the model of compiler/ast.rs::Expr::as_const after the fix
+   ([as_const_old]: as found), [compile_expr] / [run_compiled] the part of codegen.rs::compile_expr
+   that chooses between one LoadConst and run-time code (C04/Model.v); run-time evaluation is the
+   reference evaluator [eval] of Lang/Interp.v, for every undefined behaviour [c_mode c], every
+   context and every state; [subst sigma e] puts literals back for the variables of [sigma]
+   ([e] is the hoisted form, [subst sigma e] the literal form), [bound] says those variables
+   carry the literals' values, [res_rel] is "same value / same error kind", [depth e] is the
+   fuel that is large enough (C04/Spec.v). *)
+From MJ Require Import Common.Base Lang.Syntax Lang.Meta Lang.Interp C04.Model C04.Spec C04.Proofs.
+
+(* Whatever the folder computes at load time is exactly what run-time evaluation of the same
+   expression yields - in every context, under every undefined behaviour, leaving the state
+   untouched. *)
+Theorem fold_agrees : forall e v, as_const e = Some v ->
+  forall c fuel esc s, (depth e <= fuel)%nat -> eval c fuel esc s e = Ok (v, s).
+Proof. exact fold_agrees_proof. Qed.
+
+(* A folded constant is never an undefined value (so no undefined behaviour can tell it apart). *)
+Theorem fold_never_undefined : forall e v, as_const e = Some v -> is_undef v = false.
+Proof. exact fold_defined_proof. Qed.
+
+(* A constant expression whose evaluation fails (division by zero, overflow, wrong operand kinds,
+   ...) is not folded: the folder answers None and run-time code is emitted, so the error can
+   only surface when that code is executed. *)
+Theorem fold_defers_errors : forall e c fuel esc s k, (depth e <= fuel)%nat ->
+  eval c fuel esc s e = Err k -> as_const e = None.
+Proof.
+  intros e c fuel esc s k Hd He. apply (fold_defers_errors_proof e c fuel esc s Hd).
+  intros v s' H. rewrite He in H. discriminate.
+Qed.
+
+(* Loading never evaluates anything that could fail: compiling is a total function, and running
+   what it produced is running the expression. *)
+Theorem compile_transparent : forall e c fuel esc s, (depth e <= fuel)%nat ->
+  run_compiled c fuel esc s (compile_expr e) = eval c fuel esc s e.
+Proof. exact compile_transparent_proof. Qed.
+
+(* Replacing ANY set of literal sub-expressions by variables bound to the same values changes
+   neither the result nor success / the error kind (run-time semantics; call-free expressions;
+   the two evaluations may even start from states that differ in the look-up record). *)
+Theorem hoisting_transparent : forall c sigma e esc fuel s1 s2,
+  pure e = true -> same s1 s2 -> bound c s1 sigma ->
+  res_rel s1 s2 (eval c fuel esc s1 e) (eval c fuel esc s2 (subst sigma e)).
+Proof. exact hoist_equiv_proof. Qed.
+
+(* The property itself: the compiled hoisted form and the compiled literal form (which may fold
+   where the hoisted form cannot) behave the same. *)
+Theorem literal_variable_equiv : forall c sigma e esc fuel s,
+  pure e = true -> bound c s sigma -> (depth e <= fuel)%nat ->
+  res_rel s s (run_compiled c fuel esc s (compile_expr e))
+              (run_compiled c fuel esc s (compile_expr (subst sigma e))).
+Proof. exact literal_variable_equiv_proof. Qed.
+
+(* compile_expr recurses: an operand of a node that does not fold is itself folded where possible.
+   [fold_sub e] makes that decision at every level; evaluating the result is evaluating [e]
+   (any expression, calls included; same outcome for the same fuel). *)
+Theorem fold_everywhere : forall e c fuel esc s, (depth e <= fuel)%nat ->
+  eval c fuel esc s (fold_sub e) = eval c fuel esc s e.
+Proof. exact fold_everywhere_proof. Qed.
+
+(* ... hence the property also holds with folding applied at every level of both forms. *)
+Theorem literal_variable_equiv_deep : forall c sigma e esc fuel s,
+  pure e = true -> bound c s sigma -> (depth e <= fuel)%nat ->
+  res_rel s s (eval c fuel esc s (fold_sub e)) (eval c fuel esc s (fold_sub (subst sigma e))).
+Proof. exact literal_variable_equiv_deep_proof. Qed.
+
+(* single-hoist version: one literal [l] supplied through the variable [x] *)
+Theorem single_hoist_equiv : forall c x l e esc fuel s,
+  pure e = true -> fst (load c (s_clos s) (s_env s) x) = Some (value_of_lit l) -> (depth e <= fuel)%nat ->
+  res_rel s s (run_compiled c fuel esc s (compile_expr e))
+              (run_compiled c fuel esc s (compile_expr (subst (single x l) e))).
+Proof. intros. apply literal_variable_equiv_proof; auto using bound_single. Qed.
+
+(* If the literal form folds to [v], the hoisted form computes [v] at run time. *)
+Theorem fold_agrees_hoisted : forall c sigma e v esc fuel s,
+  pure e = true -> bound c s sigma -> (depth e <= fuel)%nat ->
+  as_const (subst sigma e) = Some v ->
+  exists s', eval c fuel esc s e = Ok (v, s') /\ same s s'.
+Proof. exact fold_agrees_hoisted_proof. Qed.
+
+(* `F if false else G`: never folded, and F - whatever it is - is not evaluated. *)
+Theorem untaken_branch_not_evaluated : forall c fuel esc s F G,
+  compile_expr (EIf (EConst (LBool false)) F (Some G)) = CRuntime (EIf (EConst (LBool false)) F (Some G)) /\
+  eval c (S (S fuel)) esc s (EIf (EConst (LBool false)) F (Some G)) = eval c (S fuel) esc s G.
+Proof. exact untaken_branch_proof. Qed.
+
+(* ---- the folder as found violates fold_agrees: `0 and 1` folds to false, run time gives 0 ---- *)
+Example fold_refuted_before_fix :
+  let e := EAnd (EConst (LInt 0)) (EConst (LInt 1)) in
+  as_const_old e = Some (VBool false) /\
+  forall c esc s, eval c 2 esc s e = Ok (VInt 0, s) /\ VInt 0 <> VBool false.
+Proof.
+  cbv zeta. split; [reflexivity|]. intros c esc s. split; [|discriminate].
+  apply fold_agrees; [reflexivity|cbn; lia].
+Qed.
+
+(* the second operand as well: `1 and ""` folded to false, run time gives "" *)
+Example fold_refuted_before_fix_right :
+  as_const_old (EAnd (EConst (LInt 1)) (EConst (LStr []))) = Some (VBool false) /\
+  as_const (EAnd (EConst (LInt 1)) (EConst (LStr []))) = Some (VStr false []).
+Proof. split; reflexivity. Qed.
+
+(* ---- non-vacuity: the folder folds non-trivial expressions, defers failing ones, follows the
+   parser's shapes; the hypotheses of the hoisting theorems are met by a real binding ---- *)
+Example fold_witness :
+  (* 1 < 2 < 1 + 2 *)
+  as_const (ECmp (EConst (LInt 1)) [(CLt, EConst (LInt 2)); (CLt, EBin OAdd (EConst (LInt 1)) (EConst (LInt 2)))]) = Some (VBool true) /\
+  (* 3 > 2 > 1 > 1 // 0 : not folded (the last operand does not fold) *)
+  as_const (ECmp (EConst (LInt 3)) [(CGt, EConst (LInt 2)); (CGt, EConst (LInt 1)); (CGt, EBin OFloorDiv (EConst (LInt 1)) (EConst (LInt 0)))]) = None /\
+  (* 3 > 2 > 5 > 1 // 0 : folded to false, the loop stops before the failing operand exactly like the VM *)
+  as_const (ECmp (EConst (LInt 3)) [(CGt, EConst (LInt 2)); (CGt, EConst (LInt 5)); (CGt, EBin OFloorDiv (EConst (LInt 1)) (EConst (LInt 0)))]) = Some (VBool false) /\
+  as_const (EBin OFloorDiv (EConst (LInt 1)) (EConst (LInt 0))) = None /\
+  as_const (EAnd (EConst (LInt 0)) (EConst (LInt 1))) = Some (VInt 0) /\
+  as_const (EOr (EConst (LStr [])) (EList [])) = Some (VList []) /\
+  as_const (ENot (EList [])) = Some (VBool true) /\
+  as_const (ECmp (EConst (LInt 1)) [(CNotIn, EList [EConst (LInt 1)])]) = Some (VBool false) /\
+  as_const (EList [ENeg (EConst (LInt 1))]) = None /\
+  as_const (EBin OConcat (ENeg (EConst (LInt 7))) (EConst (LStr [97]))) = Some (VStr false [45; 55; 97]).
+Proof. vm_compute. repeat split. Qed.
+
+Example hoist_witness :
+  let c := mkCfg Strict [(100, VInt 0); (101, VStr false [])] false in
+  let sigma := fun y => if y =? 100 then Some (LInt 0) else if y =? 101 then Some (LStr []) else None in
+  let e := EOr (EAnd (EVar 100) (EConst (LInt 1))) (EVar 101) in
+  pure e = true /\ bound c init_state sigma /\
+  subst sigma e = EOr (EAnd (EConst (LInt 0)) (EConst (LInt 1))) (EConst (LStr [])) /\
+  compile_expr (subst sigma e) = CLoadConst (VStr false []) /\ compile_expr e = CRuntime e.
+Proof.
+  cbv zeta. split; [reflexivity|]. split; [|repeat split].
+  intros x l H. destruct (x =? 100) eqn:E1.
+  - apply Z.eqb_eq in E1. subst x. inversion H. reflexivity.
+  - destruct (x =? 101) eqn:E2; [|discriminate]. apply Z.eqb_eq in E2. subst x. inversion H. reflexivity.
+Qed.
+
+(* x + (0 and 1): the node does not fold, its right operand does *)
+Example fold_sub_witness :
+  fold_sub (EBin OAdd (EVar 100) (EAnd (EConst (LInt 0)) (EConst (LInt 1)))) = EBin OAdd (EVar 100) (EConst (LInt 0)) /\
+  fold_sub (EFilter F_default (EVar 100) [EOr (EList []) (EList [EConst (LInt 1); EConst (LStr [97])])]) =
+    EFilter F_default (EVar 100) [EList [EConst (LInt 1); EConst (LStr [97])]].
+Proof. split; reflexivity. Qed.
+
+Print Assumptions fold_agrees.
+Print Assumptions fold_never_undefined.
+Print Assumptions fold_defers_errors.
+Print Assumptions compile_transparent.
+Print Assumptions hoisting_transparent.
+Print Assumptions literal_variable_equiv.
+Print Assumptions fold_everywhere.
+Print Assumptions literal_variable_equiv_deep.
+Print Assumptions single_hoist_equiv.
+Print Assumptions fold_agrees_hoisted.
+Print Assumptions untaken_branch_not_evaluated.
